@@ -284,6 +284,12 @@ func collectObject(o *spec.Spec, env *model.Env, v val.V, path []string, steps [
 			continue
 		}
 		qraw := gen.RenderCanonical(curT, q.Type, env, qv)
+		// single fault only: the added value must itself be acceptable (a declared default deep inside its type can be
+		// invalid - e.g. it became so when a property of a referenced object received a default of its own - and then
+		// the added member carries a second fault)
+		if _, verdict := model.Denote(q.Type, env, qraw.Go()); verdict != model.Accept {
+			continue
+		}
 		var paths [][]string
 		for _, vn := range violated {
 			paths = append(paths, cp(path, vn))
